@@ -88,6 +88,7 @@ class SrcInfo:
         self.files = {}
         self.impl_cache = {}
         self.modules = {'crate', 'self', 'super'}
+        self.aliases = {}
 
     def text(self, path):
         if path not in self.files:
@@ -111,6 +112,8 @@ class SrcInfo:
 
     def load_file(self, full, mod):
         src = strip_comments(open(full).read())
+        for m in re.finditer(r'\btype\s+(\w+)\s*(?:<[^=]*>)?\s*=\s*([^;]+);', src):
+            self.aliases[m.group(1)] = self.head(m.group(2))
         for m in re.finditer(r'\b(struct|enum)\s+(\w+)', src):
             kind, name = m.group(1), m.group(2)
             k = m.end()
@@ -220,7 +223,9 @@ class SrcInfo:
                 if d == 0 and t.startswith(' for ', i):
                     tr, ty = t[:i].strip(), t[i + 5:].strip()
                     break
-            res = (self.head(tr) if tr else None, self.head(ty), ty)
+            hty = self.head(ty)
+            hty = self.aliases.get(hty, hty)
+            res = (self.head(tr) if tr else None, hty, ty)
         else:
             # derive(...) span: the trait name; the type is the next struct/enum declared after the line
             tr = txt.split('::')[-1]
